@@ -293,12 +293,18 @@ def generate(rng, prop, tier, index):
                 'src_seed': rng.randrange(10**9), 'count': 40,
                 'hashseeds': ['1', '2', '3', str(rng.randrange(4, 10**6))]}
     if index % 10 == 5:
+        if index % 50 == 15:
+            # lexable, not parseable: every route has to fail alike
+            src_ = gen_valid_source(rng) + rng.choice(
+                [b'\ny = = 2\n', b'\nif x then\n', b'\nend\n',
+                 b'\nz = (1\n\n'])
+        elif rng.random() < 0.8:
+            src_ = gen_valid_source(rng)
+        else:
+            src_ = gen_source(rng).decode('latin-1').encode('ascii',
+                                                            'replace')
         return {'engine': NAME, 'mode': 'file',
-                'src': core.enc_bytes(gen_valid_source(rng)
-                                      if rng.random() < 0.8
-                                      else gen_source(rng)
-                                      .decode('latin-1').encode(
-                                          'ascii', 'replace')),
+                'src': core.enc_bytes(src_),
                 'routes': ['p8file', 'p8include', 'p8include2',
                            'p8include-tab-then-all', 'p8include-after-failed',
                            'p8include-carts-two-dirs', 'cli-listtokens']}
